@@ -6,12 +6,15 @@
                               (in particular the coefficients of each term add up to t * c_k)
      suzuki_palindromic       the sequence of every even order reads the same backwards
      den_scale, den_repeat    circuits are homogeneous; a repeated circuit is the iterated operation
-     identity_uncontrolled / identity_one_control / identity_multi_control   identity-term handling
-     identity_multi_control_refuted   hard-coded target among the controls: ValueError
+     identity_uncontrolled / identity_one_control / identity_multi_control   identity-term handling: for EVERY
+                              control list the gates denote the controlled phase e^{-ic} (source after fix ae252bf:
+                              CPHASE(-c) on the last control, controlled by the others)
+     identity_multi_control_asis, identity_multi_control_asis_refuted   the definition before the fix (CPHASE(-2c),
+                              CRZ(2c) on the hard-coded target 0): correct only when 0 is not a control, ValueError otherwise
      exp_terms_eigen          joint eigenvector of the words: phase * circuit = e^{-i (sum of +-c_j)}
      trotterize_structure     circuit = n-fold repetition, phase number = n-fold sum
      trotterize_eigen         the same for trotterize; with suzuki_weighted_sum: e^{-i t E}  *)
-From Coq Require Import String ZArith NArith List Bool Arith Lia Ring FunctionalExtensionality.
+From Coq Require Import String ZArith NArith List Bool Arith Lia Ring Permutation FunctionalExtensionality.
 From Tangelo Require Import Num.KStruct QSem.State QSem.StateLemmas QSem.GateLemmas.
 From Tangelo Require Import Pauli.Word Pauli.Action Pauli.ActionProofs.
 From Tangelo Require Import Linq.GateModel Linq.Interp Linq.InterpProofs Chem.PauliExp Chem.PauliExpProofs Chem.TimeEvo.
@@ -147,9 +150,14 @@ Section Evolution.
   (* the identity-term part of the regenerated tables *)
   Record id_tables_ok : Prop := IdTablesOk {
     t_single : id_single T = [("PHASE", (-1)%Z)]%string;
-    t_multi : id_multi T = [("CPHASE", (-2)%Z); ("CRZ", 2%Z)]%string;
-    t_target : id_target T = 0%N }.
+    t_multi : id_multi T = [("CPHASE", (-1)%Z)]%string;
+    t_target : id_target T = None }.
   Hypothesis HI : id_tables_ok.
+  (* the tables of the source BEFORE fix ae252bf (kept for the as-is statements; never assumed together with HI) *)
+  Record id_tables_asis : Prop := IdTablesAsIs {
+    a_multi : id_multi T = [("CPHASE", (-2)%Z); ("CRZ", 2%Z)]%string;
+    a_target : id_target T = Some 0%N }.
+  Hypothesis HIa : id_tables_asis.
 
   Notation state := (state S).
   Notation interp_all := (interp_all S Ang ang).
@@ -223,21 +231,61 @@ Section Evolution.
       + ring.
   Qed.
 
-  (* ---- identity term, several controls: CPHASE(-2c) CRZ(2c) on the hard-coded target (qubit 0),
-          PROVIDED that target is not among the controls ---- *)
+  (* ---- identity term, several controls (current source): ONE gate CPHASE(-c) whose target is the last control and
+          whose controls are the others = the phase e^{-ic} on the all-ones branch of the controls, for EVERY list of
+          distinct controls (no proviso about qubit 0) ---- *)
+  Lemma allset_split x (cs : list N) d : cs <> [] -> allset x cs = allset x (removelast cs) && bit x (last cs d).
+  Proof.
+    intro H. rewrite (app_removelast_last d H) at 1. unfold allset. rewrite forallb_app. simpl.
+    rewrite andb_true_r. reflexivity.
+  Qed.
+
   Theorem identity_multi_control c v q1 q2 r :
-    NoDup (id_target T :: q1 :: q2 :: r) ->
+    NoDup (q1 :: q2 :: r) ->
     exists gs C, term_gates Ang Ops T [] c v (Some (q1 :: q2 :: r)) = Ok (gs, o_zero Ops)
                  /\ interp_all gs = Some C
                  /\ forall psi : state, den S C psi = ctrl S (q1 :: q2 :: r) (exp_word S [] (dbl c)) psi.
   Proof.
-    intro Hnd. set (t0 := id_target T) in *.
+    intro Hnd.
+    assert (Hne : q1 :: q2 :: r <> []) by discriminate.
+    assert (Hnd' : NoDup (last (q1 :: q2 :: r) 0%N :: removelast (q1 :: q2 :: r))).
+    { apply (Permutation_NoDup (l := removelast (q1 :: q2 :: r) ++ [last (q1 :: q2 :: r) 0%N])).
+      - apply Permutation_sym, Permutation_cons_append.
+      - rewrite <- (app_removelast_last 0%N Hne). exact Hnd. }
+    assert (Htg : term_gates Ang Ops T [] c v (Some (q1 :: q2 :: r))
+                  = Ok ([PGate "CPHASE" [zq (last (q1 :: q2 :: r) 0%N)] (Some (map zq (removelast (q1 :: q2 :: r))))
+                               (PNum (zmul Ang Ops (-1) c)) v], o_zero Ops)).
+    { unfold term_gates, id_gates. rewrite (t_target HI), (t_multi HI).
+      cbn [mapM fst snd]. rewrite (mk_some Ang _ _ _ _ _ Hnd'). reflexivity. }
+    revert Htg Hnd' Hne. generalize (q1 :: q2 :: r). intros cs Htg Hnd' Hne.
+    set (t := last cs 0%N) in *. set (rest := removelast cs) in *.
+    exists [PGate "CPHASE" [zq t] (Some (map zq rest)) (PNum (zmul Ang Ops (-1) c)) v].
+    exists [Gate (B1 (GPHASE (aopp (ang c))) t) rest]. split; [exact Htg|split].
+    - apply interp_all_one. unfold Interp.interp. simpl pname. simpl ptarget. simpl pcontrol. simpl pparam.
+      cbn [g1_of_name String.eqb Ascii.eqb Bool.eqb orb]. rewrite ang_zmul_m1, zn_zq, map_zn_zq. reflexivity.
+    - intro psi. apply state_ext. intro x. rewrite den_cons, den_nil. unfold den_gate, ctrl; simpl gctrl; simpl gbase.
+      rewrite (allset_split x cs 0%N Hne). fold t rest.
+      destruct (allset x rest); [|reflexivity]. simpl andb.
+      rewrite exp_word_nil. unfold den_base, app1; simpl. destruct (bit x t).
+      + unfold PauliExpProofs.dbl. rewrite aopp_add, cis_add. ring.
+      + ring.
+  Qed.
+
+  (* ---- the definition BEFORE the fix: CPHASE(-2c) CRZ(2c) on the hard-coded target (qubit 0) is the controlled phase
+          PROVIDED that target is not among the controls ... ---- *)
+  Theorem identity_multi_control_asis c v q1 q2 r :
+    NoDup (0%N :: q1 :: q2 :: r) ->
+    exists gs C, term_gates Ang Ops T [] c v (Some (q1 :: q2 :: r)) = Ok (gs, o_zero Ops)
+                 /\ interp_all gs = Some C
+                 /\ forall psi : state, den S C psi = ctrl S (q1 :: q2 :: r) (exp_word S [] (dbl c)) psi.
+  Proof.
+    intro Hnd. set (t0 := 0%N) in *.
     assert (Htg : term_gates Ang Ops T [] c v (Some (q1 :: q2 :: r))
                   = Ok ([PGate "CPHASE" [zq t0] (Some (map zq (q1 :: q2 :: r))) (PNum (zmul Ang Ops (-2) c)) v;
                          PGate "CRZ" [zq t0] (Some (map zq (q1 :: q2 :: r))) (PNum (zmul Ang Ops 2 c)) v], o_zero Ops)).
-    { unfold term_gates, id_gates. fold t0. rewrite (t_multi HI).
+    { unfold term_gates, id_gates. rewrite (a_target HIa), (a_multi HIa). fold t0.
       cbn [mapM fst snd]. rewrite !(mk_some Ang _ t0 (q1 :: q2 :: r)) by exact Hnd. reflexivity. }
-    revert Htg Hnd. generalize (q1 :: q2 :: r). intros cs Htg Hnd.
+    revert Htg Hnd. generalize (q1 :: q2 :: r). intros cs Htg Hnd. clearbody t0.
     exists [PGate "CPHASE" [zq t0] (Some (map zq cs)) (PNum (zmul Ang Ops (-2) c)) v;
             PGate "CRZ" [zq t0] (Some (map zq cs)) (PNum (zmul Ang Ops 2 c)) v].
     exists [Gate (B1 (GPHASE (aopp (dbl c))) t0) cs; Gate (B1 (GRZ (dbl c)) t0) cs]. split; [exact Htg|split].
@@ -254,11 +302,11 @@ Section Evolution.
       + ring.
   Qed.
 
-  (* ... and when the hard-coded target IS among several controls the construction raises ValueError
-     (Gate refuses target = control): no circuit is produced for a perfectly meaningful request *)
-  Theorem identity_multi_control_refuted c v :
+  (* ... and when the hard-coded target IS among several controls that construction raises ValueError (Gate refuses
+     target = control): the defect repaired by fix ae252bf *)
+  Theorem identity_multi_control_asis_refuted c v :
     term_gates Ang Ops T [] c v (Some [0%N; 1%N]) = Err ValueError.
-  Proof. unfold term_gates, id_gates. rewrite (t_multi HI), (t_target HI). reflexivity. Qed.
+  Proof. unfold term_gates, id_gates. rewrite (a_target HIa), (a_multi HIa). reflexivity. Qed.
 
   (* ---- joint eigenvectors ---- *)
   Definition sg (b : bool) : K S := if b then 1 else - (1).
